@@ -38,8 +38,7 @@ def _tlc_export(spec, consts, tag, simulate=None, depth=None, invariants=(), tim
     import hashlib
     key = hashlib.sha256(json.dumps([_spec_digest(), spec, consts, simulate, depth, list(invariants), seed()],
                                     sort_keys=True).encode()).hexdigest()[:20]
-    cdir = os.path.join(OUT, "cache")
-    os.makedirs(cdir, exist_ok=True)
+    from .common import CACHE as cdir
     cpath = os.path.join(cdir, f"interp-{key}.json")
     if os.path.exists(cpath):
         with open(cpath) as fh:
